@@ -9,6 +9,7 @@ open HgImpl
 type node = { mutable st : hg; shadow : (string, string) Hashtbl.t; mutable pools : NodeModel.pools; self : string }
 
 let nodes : (string, node) Hashtbl.t = Hashtbl.create 16
+let kcount = ref 0
 let dead : (string, unit) Hashtbl.t = Hashtbl.create 16   (* nodes with injected faults: not modelled any more *)
 let body_of_id : (string, string) Hashtbl.t = Hashtbl.create 64
 let id_of_body : (string, string) Hashtbl.t = Hashtbl.create 64
@@ -175,6 +176,13 @@ let handle check diff (toks : string list) (raw : string) : bool =
         (match Hashtbl.find_opt id_of_body s with
          | Some i' when i' <> i -> incr bad; diff "K" (raw ^ " bodyid=" ^ i) "one id per body" "two implementation body hashes for one model body"
          | None -> Hashtbl.replace id_of_body s i | _ -> ())) n.st.delivered;
+    (* declarative layer (HgSpec) vs the implementation model, on a sample of the states *)
+    incr kcount;
+    if !kcount mod 25 = 0 && Stdlib.List.length n.st.peersets = 1 then begin
+      let ps = snd (Stdlib.List.hd n.st.peersets) in
+      let mm = HgSpec.spec_mismatches n.st ps in
+      check "SPEC" raw "" (join (map (fun (x, k) -> Printf.sprintf "%s:%s" (zs x) (zs k)) mm))
+    end;
     if !bad = 0 then check "K" raw "" "" ; true
   | ("Z" | "V" | "#") :: _ -> true
   | _ -> false
